@@ -24,6 +24,19 @@ pub mod syscalls {
 //@use syscalls.linkat c14
 //@use syscalls.symlinkat c14
 //@use syscalls.renameat2 c14
+    #[verifier::external_body]
+    pub fn at_fdcwd() -> (r: BorrowedFd<'static>) ensures raw_of(r.id@) == libc::AT_FDCWD as int, r.id@ == cwd_id() { unimplemented!() }
+    /// R18: the one bootstrap use of `syscalls::openat(AT_FDCWD, <caller's path>, ..)` in root.rs (Root::open):
+    /// the caller names the directory that IS the root; no root exists yet, so there is nothing to stay inside
+    #[verifier::external_body]
+    pub fn openat_bootstrap_root<P: AsRefPath>(dirfd: BorrowedFd<'_>, path: P, flags: OpenFlags, mode: u32) -> (r: Result<OwnedFd, Error>)
+        requires
+            raw_of(dirfd.id@) == libc::AT_FDCWD as int,
+            has(flags.bits, libc::O_PATH | libc::O_DIRECTORY),                  // [C05.Root_open.opath_directory]
+        ensures
+            r matches Ok(fd) ==> opened_from(fd.id(), dirfd.id@, path.pview()),
+            r matches Ok(fd) ==> has(kflags(fd.id()), flags.bits | libc::O_NOFOLLOW | libc::O_CLOEXEC | libc::O_NOCTTY),
+    { unimplemented!() }
 //@use-missing syscalls.openat syscalls.openat_follow syscalls.readlinkat syscalls.mkdirat syscalls.mknodat syscalls.unlinkat syscalls.linkat syscalls.symlinkat syscalls.renameat syscalls.renameat2 syscalls.openat2
 }
 use syscalls::Error as SyscallError;
@@ -90,6 +103,7 @@ pub open spec fn inode_target(t: InodeType) -> Seq<u8> {
 
 impl RootRef<'_> {
 //@prove root.RootRef.from_fd
+//@prove root.RootRef.try_clone
 //@prove root.RootRef.open_subpath
 //@prove root.RootRef.resolve c14
 //@prove root.RootRef.resolve_nofollow c14
@@ -110,7 +124,10 @@ impl AsFd for Root {
     fn as_fd(&self) -> (r: BorrowedFd<'_>) { self.inner.as_fd() }
 }
 impl Root {
+//@prove root.Root.from_fd
+//@prove root.Root.open
 //@prove root.Root.as_ref
+//@prove root.Root.try_clone
 //@prove root.Root.resolve c14
 //@prove root.Root.resolve_nofollow c14
 //@prove root.Root.open_subpath c14
